@@ -495,6 +495,28 @@ pub open spec fn zpick_ok(t: Tree, r: Tree) -> bool decreases t {
         }
     }
 }
+/// `r` follows the caller's choice oracle `o` wherever the decision is free (lo-child satisfiable and hi != lo):
+/// oracle true = variable true (a node on that level), oracle false = variable false (no node on that level)
+pub open spec fn zpick_follows(t: Tree, o: spec_fn(Tree, u32) -> bool, r: Tree) -> bool decreases t {
+    match t {
+        Tree::Leaf(_) => true,
+        Tree::Inner(l, a, b) => {
+            let free = *b != ee() && *a != *b;
+            if r is Inner && top(r) == l as int { (free ==> o(t, l)) && zpick_follows(*a, o, then_of(r)) }
+            else { (free ==> !o(t, l)) && zpick_follows(*b, o, r) }
+        }
+    }
+}
+pub broadcast proof fn lemma_zpick_follows_mk(l: u32, a: Tree, b: Tree, o: spec_fn(Tree, u32) -> bool, r: Tree)
+    ensures #[trigger] zpick_follows(mk(l, a, b), o, r) == ({
+        let free = b != ee() && a != b;
+        if r is Inner && top(r) == l as int { (free ==> o(mk(l, a, b), l)) && zpick_follows(a, o, then_of(r)) }
+        else { (free ==> !o(mk(l, a, b), l)) && zpick_follows(b, o, r) }
+    }),
+{}
+pub broadcast proof fn lemma_zpick_follows_leaf(c: bool, o: spec_fn(Tree, u32) -> bool, r: Tree)
+    ensures #[trigger] zpick_follows(Tree::Leaf(c), o, r),
+{}
 /// the same with a literal set `ls` (a cube): where the decision is free it follows the polarity of `ls`; a variable that is
 /// unassigned in `ls` stays don't-care where the diagram allows, otherwise either value may be picked
 pub open spec fn zpick_set_ok(t: Tree, ls: Tree, r: Tree) -> bool decreases t {
@@ -683,7 +705,7 @@ pub broadcast proof fn lemma_cube_lit_zpopped_b(ls: Tree, until: int, l: int)
 pub broadcast proof fn lemma_cube_lit_leaf(c: bool, l: int)
     ensures #[trigger] cube_lit(Tree::Leaf(c), l) == Lit::Neg,
 {}
-pub broadcast group pick_lemmas { lemma_zpick_ok_mk, lemma_zpick_ok_leaf, lemma_zpick_ok_ok, lemma_zpick_set_ok_mk, lemma_zpick_set_ok_leaf, lemma_zpick_set_ok_ok,
+pub broadcast group pick_lemmas { lemma_zpick_follows_mk, lemma_zpick_follows_leaf, lemma_zpick_ok_mk, lemma_zpick_ok_leaf, lemma_zpick_ok_ok, lemma_zpick_set_ok_mk, lemma_zpick_set_ok_leaf, lemma_zpick_set_ok_ok,
     lemma_zpick_set_zpopped, lemma_zpopped_mk, lemma_zpopped_ok, lemma_cube_lit_zpopped_b, lemma_cube_lit_leaf, lemma_cube_lit_mk }
 
 // ---------- eval (C02): the `ones` counter of eval_edge ----------
@@ -1625,6 +1647,9 @@ broadcast use {leaf_lemmas, pick_lemmas};
         // and on which the function depends (hi != lo), and with that node's level
         forall|mm: &M, e2: &M::Edge, l: LevelNo| (e2.view() matches Tree::Inner(k, a, b) && k == l && *b != ee() && *a != *b) ==> #[trigger] choice.requires((mm, e2, l)),
     ensures res is Ok ==> zpick_ok(edge.view(), res->Ok_0.view()) && ok(res->Ok_0.view(), manager.num_levels_spec()),
+        // wherever the value is not forced it is the value returned by the caller's choice function
+        res is Ok ==> forall|o: spec_fn(Tree, u32) -> bool| (forall|mm: &M, e2: &M::Edge, l: LevelNo, r: bool| #[trigger] choice.ensures((mm, e2, l), r) ==> r == o(e2.view(), l))
+            ==> #[trigger] zpick_follows(edge.view(), o, res->Ok_0.view()),
     decreases edge.view(),
 //@end
 //@fn file=crates/oxidd-rules-zbdd/src/apply_rec.rs path=impl:BooleanFunction~for~ZBDDFunction<F>/fn:pick_cube_dd_set_edge/fn:set_pop rename=pick_cube_dd_set_edge__set_pop ret=r props=C13
@@ -1648,6 +1673,8 @@ where M: Manager<Terminal = ZBDDTerminal> + HasApplyCache<M, ZBDDOp> + HasZBDDCa
     requires edge_ok::<M::Edge>(), ok(edge.view(), manager.num_levels_spec()),
         forall|mm: &M, e2: &M::Edge, l: LevelNo| (e2.view() matches Tree::Inner(k, a, b) && k == l && *b != ee() && *a != *b) ==> #[trigger] choice.requires((mm, e2, l)),
     ensures res is Ok ==> zpick_ok(edge.view(), res->Ok_0.view()) && ok(res->Ok_0.view(), manager.num_levels_spec()),
+        res is Ok ==> forall|o: spec_fn(Tree, u32) -> bool| (forall|mm: &M, e2: &M::Edge, l: LevelNo, r: bool| #[trigger] choice.ensures((mm, e2, l), r) ==> r == o(e2.view(), l))
+            ==> #[trigger] zpick_follows(edge.view(), o, res->Ok_0.view()),
 //@end
 //@fn file=crates/oxidd-rules-zbdd/src/apply_rec.rs path=impl:BooleanFunction~for~ZBDDFunction<F>/fn:pick_cube_dd_set_edge hoist=set_pop>pick_cube_dd_set_edge__set_pop,inner>pick_cube_dd_set_edge__inner props=C13
 //@header
